@@ -64,6 +64,7 @@ var densePool = make(chan *Dense, PoolSize)
 func borrowDense() *Dense {
 	select {
 	case t := <-densePool:
+		verifPoolEvent(verifBorrowDense, verifDensePtr(t), 0, 0)
 		return t
 	default:
 		t := new(Dense)
@@ -81,6 +82,7 @@ func ReturnTensor(t Tensor) {
 	}
 	switch tt := t.(type) {
 	case *Dense:
+		verifPoolEvent(verifReturnDense, verifDensePtr(tt), 0, 0)
 		tt.AP.zero()
 
 		if tt.transposeWith != nil {
@@ -163,6 +165,7 @@ func BorrowInts(size int) []int {
 		return make([]int, size)
 	}
 	// log.Printf("Borrowing %p. Called by %v", retVal, string(debug.Stack()))
+	verifPoolEvent(verifBorrowInts, verifIntsPtr(retVal.([]int)), size, cap(retVal.([]int)))
 	return retVal.([]int)[:size]
 }
 
@@ -181,6 +184,7 @@ func ReturnInts(is []int) {
 	if size > maxDims {
 		return
 	}
+	verifPoolEvent(verifReturnInts, verifIntsPtr(is), len(is), cap(is))
 	is = is[:cap(is)]
 	for i := range is {
 		is[i] = 0
